@@ -1,0 +1,24 @@
+//go:build verif
+
+// Contracts for the deductive verifier in /verif (gocv). Comment-only file.
+
+package client
+
+// Request identities of the batched stream are allocated by counting up and are never reset or reused (until the 64-bit
+// counter would wrap): every store to idAlloc adds one (the initialisation of a new builder stores zero over zero).
+//@ field batchCommandsBuilder.idAlloc transition C18: (old < 18446744073709551615 ==> new == old + 1) || (old == 0 && new == 0)
+
+// Building a batch keeps the three lists of the direct group positionally aligned: the i-th request id belongs to the
+// i-th request and the i-th entry (the entry is what the response with that id is later delivered to).
+//@ spec func alignedDirect(b *batchCommandsBuilder) bool { return b.directGroup.req != nil && len(b.directGroup.req.RequestIds) == len(b.directGroup.req.Requests) && len(b.directGroup.req.Requests) == len(b.directGroup.entries) }
+//@ func (*batchCommandsBuilder) buildWithLimit$1
+//@   prop C18
+//@   may-panic
+//@   requires alignedDirect(b) && forall h string :: inDom(b.forwardingGroups, h) ==> b.forwardingGroups[h] != nil && b.forwardingGroups[h] != ref(b.directGroup) && b.forwardingGroups[h].req != b.directGroup.req && b.forwardingGroups[h].req != nil
+//@   opaque-callee isCanceled priority Store Sub Nanoseconds
+//@   loop 1 invariant reqnn: b.directGroup.req != nil
+//@   loop 1 invariant l1: len(b.directGroup.req.RequestIds) == len(b.directGroup.req.Requests)
+//@   loop 1 invariant l2: len(b.directGroup.req.Requests) == len(b.directGroup.entries)
+//@   loop 1 invariant others: forall h string :: inDom(b.forwardingGroups, h) ==> b.forwardingGroups[h] != nil && b.forwardingGroups[h] != ref(b.directGroup) && b.forwardingGroups[h].req != b.directGroup.req && b.forwardingGroups[h].req != nil
+//@   loop 1 step fresh: len(b.directGroup.entries) == prev(len(b.directGroup.entries)) + 1 ==> b.idAlloc == uint64(prev(b.idAlloc) + 1) && b.directGroup.req.RequestIds[len(b.directGroup.req.RequestIds)-1] == b.idAlloc
+//@   ensures aligned: alignedDirect(b)
